@@ -6,6 +6,7 @@ import RV.C16.LemMulti
 import RV.C16.LemTextJson
 import RV.C16.LemTextCsv
 import RV.C16.LemTextXml
+import RV.C16.LemDoc
 /-
   C16 — helper lemmas, split by format:
     LemJson    binding dicts vs aligned rows, `parseJsonTerm ∘ termToJSON`
@@ -20,5 +21,6 @@ import RV.C16.LemTextXml
     LemTextJson  (round g) JSON string tokens: `scanstring` undoes every RFC 8259 spelling
     LemTextCsv   (round g) CSV text: the `csv.reader` state machine undoes `csv.writer` and every RFC 4180 rendering
     LemTextXml   (round g) XML text: an XML 1.0 parser undoes `escape` / `_characters` / `quoteattr`
+    LemDoc       (round h) the JSON document: `json.loads` undoes `json.dumps` on every number-free tree
     LemMulti   several live iterators over one Result: the same invariant; what the generator-reading iterators hand out
 -/
